@@ -11,6 +11,7 @@ TRUST = ("Trusted base: the go/ssa translation and the symbolic executor of /ver
 CLAIMS = {
  "C01": ("Registry contracts: every registry operation (Subscribe, SubscribeContext, Unsubscribe, Clear, ClearAll, HasHandlers, HandlerCount, the Once-removal section of PublishContext) is one critical section on the shard selected by shardIdx(typeOf(T)) whose effect on the abstract registry (map type -> sequence of registrations) is stated as a whole-view postcondition with frame; the shard lock invariant keeps every list typed by its key; PublishContext snapshots the list into a fresh array under the read lock and its dispatch loop delivers each snapshot element at most once, in index order, with the published value. Proved for every registry state, handler list and iteration count. Partial: 'first match is removed and order of the rest is kept' for Unsubscribe is a quantified postcondition; order preservation of the Once-removal loop is covered only by length/frame/typed invariants (stated in DESIGN.md).", "5 C01"),
  "C02": ("Linearizability argument by contracts: each registry operation takes the shard lock exactly once (cs.single), its critical-section contract is its sequential specification, the handler record is immutable after publication (immutability scan) and delivery is at most once per snapshot element; with M1-M3 (lock-protected sections are atomic, lock invariants) this gives the stated bounds for every interleaving. The composition step itself (M7) is a trusted meta-theorem, not a discharged obligation.", "5 C02"),
+ "C03": ("For the root, state and stores/sqlite packages. Data races: every read/write of a lock-guarded field (and of the maps/slices reached through it) is an obligation 'lock held in the right mode' on every function under contract, a package scan demands that every function touching a mutex or guarded field IS under contract (closed world), and further scans demand that every field written after construction is lock-guarded, atomic (CAS 0->1 only) or immutable-after-construction; with M1 (mutex happens-before) that excludes data races on ebu's own state. Deadlocks: locks are taken in level order, released on every path including panics, never held across a loop iteration boundary, and every user callback is invoked with no ebu lock held - except the Sequential handler mutex, which is the recorded known finding (two Sequential handlers publishing to each other deadlock). Not covered: the durablestream and otel modules, blocking on channels/WaitGroups (a handler that calls Wait on its own bus), configuration setters (excluded by the statement).", "5 C03"),
  "C04": ("Once claim/dispatch contracts of PublishContext (per-iteration), its goroutine literal, the atomic-field scan (executed only ever CAS 0->1) and the immutability scan, discharged for all inputs and iteration counts; all schedules through M5 (CAS linearizable).", "5 C04"),
  "C05": ("Panic containment contracts of callHandlerWithContext (never exits by panic, panic handler exactly once with the right arguments, Sequential mutex released on the panic path) and the dispatch loop of PublishContext, for every handler list and position.", "5 C05"),
  "C06": ("WaitGroup credit discipline (Add precedes go, exactly one Done per credit on every path), Wait/Shutdown contracts with a one-shot channel invariant; all workloads through M4.", "5 C06"),
@@ -22,6 +23,7 @@ CLAIMS = {
  "C12": ("SubscribeWithReplay contracts: resume from the loaded offset, load errors returned, catch-up callback saves after the handler and only for matching decodable events, live wrapper saves bus.lastOffset read under storeMu after the handler, never OffsetOldest. One genuine defect is recorded as a known finding (events appended during a streaming catch-up are skipped).", "5 C12"),
  "C13": ("Failure-containment contracts of persistEvent (no panic, error handler exactly once with event/type/non-nil error, no retry, lastOffset only on success, timeout context descends and is cancelled).", "5 C13"),
  "C15": ("EventType/eventTypeNameOf functional contracts (TypeNamer wins, otherwise reflect name), and at-call assertions that persistEvent, SubscribeWithReplay and RegisterUpcast pass exactly evName(typeOf(T)); state messages' EventTypeName constants.", "5 C15"),
+ "C16": ("hasCycleDFS against reachability in the upcaster graph (sound when true; when false every newly visited node is closed under edges, which at top level gives no path by the closed-set lemma), wouldCreateCycle == reach(target, source) exactly, register rejects exactly on the four causes and inserts under the same write lock as the check, lock invariant 'graph acyclic' re-established by register (edge-addition lemma), clear, clearType and established by the constructor. The graph lemmas are SMT axioms whose statements are proved in Lean 4/Mathlib (lemmas/lean/GraphReach.lean). apply's loop never follows a type twice (appliedTypes) - termination itself (of apply and of the DFS) is not verified: the technique has no variants here.", "5 C16"),
  "C17": ("upcastRegistry.apply against the recursive chain specification (chainD/chainT/chainOK with first-registered upcaster), failure returns the original, ReplayWithUpcast callback passes composed data/type with offset and timestamp unchanged and calls the error handler once, typed upcaster closure = json(f(unjson(data))) with a fresh decode target.", "5 C17"),
  "C18": ("Materializer fold: Apply/applyChange/applyControl/typedCollectionApplier contracts over the Store[T] map laws (Set/Delete/Clear/Get as map update with frame), CompositeKey injectivity lemma, lastOffset updated exactly on success; the two-session clause follows from the per-event step contract by M7.", "5 C18"),
  "C19": ("Rejection half: Apply never panics on arbitrary bytes (no-panic obligations of the whole Apply call tree), and an event that cannot be applied returns an error with collections and lastOffset unchanged (frame postconditions). The round-trip half through the helper constructors rests on the assumed json contract and is only partly covered (EntityType/CompositeKey).", "5 C19"),
@@ -29,9 +31,7 @@ CLAIMS = {
 }
 
 NA = {
- "C03": "not claimed yet: the lock-order/lockset obligations are generated for every function under contract, but the closed-world scan (every function that touches a mutex or guarded field is under contract) does not pass until the remaining lock users (state.MemoryStore.All, sqlite/durablestream stores, otel) have contracts; two genuine lock-order defects are already recorded as known findings (DESIGN.md)",
  "C14": "durability across SIGKILL/reopen is decided by the SQLite engine, WAL, VFS and the kernel; no pre/postcondition on ebu's Go functions expresses or decides it (DESIGN.md section 4, C14)",
- "C16": "not claimed yet: rejection causes, register critical section and apply's bounded loop are under contract, but the DFS (hasCycleDFS) still lacks its reachability invariant, so its obligations are not discharged",
 }
 
 PENDING = "contracts for this property are still being written; not claimed yet (work in progress, see DESIGN.md)"
